@@ -1,4 +1,148 @@
 import OFCore.Props.C01
+import OFCore.Lemmas.EngineSys
+/-!
+# C02 — what was calculated before never corrupts what is calculated or kept next
+
+Part 1 (rule systems in which no variable depends on itself — `VarRanked`): a request returns
+its meaning from every reachable state, hence the same value whatever was requested before, in
+whatever order, and the same as on a fresh simulation.
+
+Part 2 (ALL rule systems, including spiralling and faulty ones, any `max_spiral_loops`): ghost
+provenance.  Every result and cache entry of the model carries a bit `g` — true for a substituted
+spiral default, for a hit on an entry stored with `g = true`, and for a formula one of whose reads
+had `g = true`.  No decision of the machine reads it.  Invariant: every entry with `g = false` is
+the pure, context-free meaning; everything marked is purged when the top-level request returns.
+
+The full statement "every retained value is reproducible" is FALSE of the code (open finding
+F-C02b: frames above the earlier occurrence of the spiralling variable keep a tainted value);
+`C02_retained_tainted_counterexample` exhibits it in the model, the corpus of the check replays
+it on the implementation.
+-/
+set_option linter.unusedSectionVars false
 namespace OFCore
-theorem C02_placeholder : True := trivial
+open OFCore.Engine
+
+variable {P : Type} [DecidableEq P]
+
+/-- Order independence: after ANY two sequences of earlier requests (successful or failed), a
+    request returns the same value, which is also what the initial (fresh) state returns. -/
+theorem C02_order_independent (sys : Sys P) (rk : Nat → Nat) (hr : VarRanked sys rk) (hmsl : 1 ≤ sys.msl)
+    (n : Nat) (krs₁ krs₂ : List (Node P × Res))
+    (h₁ : ∀ kr ∈ krs₁, den sys n kr.1.1 kr.1.2 = some kr.2)
+    (h₂ : ∀ kr ∈ krs₂, den sys n kr.1.1 kr.1.2 = some kr.2)
+    (k : Node P) (r : Res) (hd : den sys n k.1 k.2 = some r) :
+    ∃ s₁ s₂ s₁' s₂' s₀',
+      requests sys n St.init (krs₁.map (·.1)) = some (krs₁.map (·.2), s₁) ∧
+      requests sys n St.init (krs₂.map (·.1)) = some (krs₂.map (·.2), s₂) ∧
+      request sys n s₁ k = some (r, false, s₁') ∧
+      request sys n s₂ k = some (r, false, s₂') ∧
+      request sys n St.init k = some (r, false, s₀') := by
+  obtain ⟨hc0, hs0, hi0⟩ := C01_init_consistent sys
+  obtain ⟨s₁, e1, c1, st1, i1⟩ := C01_requests_eq_den sys rk hr hmsl n krs₁ h₁ St.init hc0 hs0 hi0
+  obtain ⟨s₂, e2, c2, st2, i2⟩ := C01_requests_eq_den sys rk hr hmsl n krs₂ h₂ St.init hc0 hs0 hi0
+  obtain ⟨s₁', f1, _⟩ := C01_calculate_eq_den sys rk hr hmsl n s₁ c1 st1 i1 k.1 k.2 r hd
+  obtain ⟨s₂', f2, _⟩ := C01_calculate_eq_den sys rk hr hmsl n s₂ c2 st2 i2 k.1 k.2 r hd
+  obtain ⟨s₀', f0, _⟩ := C01_calculate_eq_den sys rk hr hmsl n St.init hc0 hs0 hi0 k.1 k.2 r hd
+  exact ⟨s₁, s₂, s₁', s₂', s₀', e1, e2, f1, f2, f0⟩
+
+/-- After every top-level request (all systems, success or failure): the evaluation stack is
+    empty again, nothing is left marked, every entry that was marked during the request has been
+    deleted and every other entry is kept as it was. -/
+theorem C02_stack_and_purge (sys : Sys P) (n : Nat) (s : St P) (hs : s.stack = []) (k : Node P)
+    (r : Res) (g : Bool) (s' : St P) (h : request sys n s k = some (r, g, s')) :
+    s'.stack = [] ∧ s'.inval = [] ∧
+    ∃ s₁, run sys n s k.1 k.2 = some (r, g, s₁) ∧
+      ∀ j, lookup s'.cache j = if j ∈ s₁.inval then none else lookup s₁.cache j := by
+  unfold request at h
+  cases hrun : run sys n s k.1 k.2 with
+  | none => rw [hrun] at h; cases h
+  | some res =>
+    obtain ⟨r1, g1, s1⟩ := res
+    rw [hrun] at h
+    simp only [Option.some.injEq, Prod.mk.injEq] at h
+    obtain ⟨rfl, rfl, rfl⟩ := h
+    have hst := run_stack sys n s k.1 k.2 r1 g1 s1 hrun
+    rw [hs] at hst
+    rw [if_pos hst]
+    refine ⟨by rw [(purge_spec s1 k).2.1, hst], (purge_spec s1 k).1, s1, rfl, fun j => (purge_spec s1 j).2.2⟩
+
+/-- Marked entries are purged: nothing that was in `invalidated_caches` is readable afterwards. -/
+theorem C02_marked_purged (sys : Sys P) (n : Nat) (s : St P) (hs : s.stack = []) (k : Node P)
+    (r : Res) (g : Bool) (s' s₁ : St P) (h : request sys n s k = some (r, g, s'))
+    (hrun : run sys n s k.1 k.2 = some (r, g, s₁)) : ∀ j ∈ s₁.inval, lookup s'.cache j = none := by
+  obtain ⟨_, _, s₁', h1, h2⟩ := C02_stack_and_purge sys n s hs k r g s' h
+  rw [hrun] at h1
+  simp only [Option.some.injEq, Prod.mk.injEq, true_and] at h1
+  subst h1
+  intro j hj
+  rw [h2 j, if_pos hj]
+
+/-- Ghost provenance invariant, for ALL rule systems and any spiral limit: along any sequence of
+    top-level requests from the initial state, every retained entry whose ghost bit is false is
+    the pure meaning of its node — what any simulation with these inputs computes for it when no
+    spiral interferes. -/
+theorem C02_untainted_is_meaning (sys : Sys P) (n : Nat) (ks : List (Node P)) (rs : List Res) (s' : St P)
+    (h : requests sys n St.init ks = some (rs, s')) :
+    ∀ j x, lookup s'.cache j = some (x, false) → ∃ m, den sys m j.1 j.2 = some (.ok x) := by
+  have h0 : GClean sys (St.init : St P).cache := by intro j x hj; simp [St.init, lookup] at hj
+  exact gclean_requests sys n ks St.init rs s' h0 h
+
+/-- … and every untainted RESULT is the meaning too. -/
+theorem C02_untainted_result_is_meaning (sys : Sys P) (n : Nat) (s : St P) (hc : GClean sys s.cache)
+    (k : Node P) (x : Val) (s' : St P) (h : request sys n s k = some (.ok x, false, s')) :
+    ∃ m, den sys m k.1 k.2 = some (.ok x) := by
+  unfold request at h
+  cases hrun : run sys n s k.1 k.2 with
+  | none => rw [hrun] at h; cases h
+  | some res =>
+    obtain ⟨r1, g1, s1⟩ := res
+    rw [hrun] at h
+    simp only [Option.some.injEq, Prod.mk.injEq] at h
+    obtain ⟨rfl, rfl, _⟩ := h
+    exact (run_clean sys n s k.1 k.2 _ _ s1 hc hrun).2 rfl x rfl
+
+/-- For systems without self-dependent variables nothing is ever tainted and every retained value
+    is exactly what a fresh simulation with the same inputs returns for it (partial: the clause
+    "given the other retained values" and systems with spirals are carried by the correspondence
+    and the oracle; the full statement fails on F-C02b). -/
+theorem C02_fresh_agrees_partial (sys : Sys P) (rk : Nat → Nat) (hr : VarRanked sys rk) (hmsl : 1 ≤ sys.msl)
+    (n : Nat) (krs : List (Node P × Res)) (h : ∀ kr ∈ krs, den sys n kr.1.1 kr.1.2 = some kr.2) :
+    ∃ s, requests sys n St.init (krs.map (·.1)) = some (krs.map (·.2), s) ∧
+      ∀ j x g, lookup s.cache j = some (x, g) → g = false ∧
+        ∃ m s₀', request sys m St.init j = some (.ok x, false, s₀') := by
+  obtain ⟨hc0, hs0, hi0⟩ := C01_init_consistent sys
+  obtain ⟨s, e, c, _, _⟩ := C01_requests_eq_den sys rk hr hmsl n krs h St.init hc0 hs0 hi0
+  refine ⟨s, e, ?_⟩
+  intro j x g hj
+  obtain ⟨hg, m, hm⟩ := c j x g hj
+  obtain ⟨s₀', f0, _⟩ := C01_calculate_eq_den sys rk hr hmsl m St.init hc0 hs0 hi0 j.1 j.2 _ hm
+  exact ⟨hg, m, s₀', f0⟩
+
+/-! ## the open finding, in the model -/
+
+/-- `v0 = 6 + 3·v0@last_month`, `v1 = 7 + 3·v0`, input `v0@1 = 8`, `max_spiral_loops = 1`;
+    periods are month numbers -/
+def spiralSys : Sys Nat where
+  formula v p := if v = 0 then some (.op2 0 (.const [6]) (.op1 3 (.ref 0 (p - 1))))
+                 else if v = 1 then some (.op2 0 (.const [7]) (.op1 3 (.ref 0 p))) else none
+  input v p := if v = 0 ∧ p = 1 then some [8] else none
+  dflt _ := [0]
+  post _ x := x
+  f1 o x := x.map (· * (o : Int))
+  f2 _ x y := List.zipWith (· + ·) x y
+  armed _ := false
+  msl := 1
+  noStore _ := false
+
+/-- Requesting `v1@4` substitutes the default for `v0@3`, purges `v0@4`, but KEEPS the tainted
+    `v1@4 = 25` (its frame lies above the earlier occurrence of the spiralling variable), although
+    the meaning of `v1@4` is `889`: the retained value is not reproducible (finding F-C02b). -/
+theorem C02_retained_tainted_counterexample :
+    ∃ s', request spiralSys 10 St.init (1, 4) = some (.ok [25], true, s') ∧
+      lookup s'.cache (1, 4) = some ([25], true) ∧ lookup s'.cache (0, 4) = none ∧
+      den spiralSys 10 1 4 = some (.ok [889]) := by
+  refine ⟨⟨[((1, 4), ([25], true))], [], []⟩, ?_, ?_, ?_, ?_⟩
+  · simp [request, run, runE, spiralSys, lookup, store, markSpiral, purge, St.init]
+  all_goals simp [den, denE, spiralSys, lookup]
+
 end OFCore
